@@ -22,6 +22,13 @@ IDENTIFY_CHECKED = ["md5_crypt", "apr_md5_crypt", "sha256_crypt", "sha512_crypt"
 #: handlers that are not GenericHandlers: their "parse" is the validation `verify` applies to the stored string
 WHOLE = ("plaintext", "ldap_plaintext", "unix_disabled", "htdigest")
 
+#: DesBcrypt family (Model/Formats/DesBcrypt.lean)
+DES_BCRYPT = ["des_crypt", "bsdi_crypt", "bigcrypt", "crypt16", "django_des_crypt", "bcrypt", "bcrypt_sha256",
+              "django_bcrypt", "django_bcrypt_sha256", "sun_md5_crypt", "phpass"]
+MODELLED += DES_BCRYPT
+
+IDENTIFY_CHECKED += DES_BCRYPT
+
 
 def cps(s) -> str:
     if isinstance(s, bytes):
@@ -41,6 +48,10 @@ def extras(name, obj) -> list[tuple[str, str]]:
     out = []
     if name in ("sha256_crypt", "sha512_crypt"):
         out.append(("implicit_rounds", "49" if obj.implicit_rounds else "48"))
+    if name == "bcrypt_sha256":
+        out.append(("version", cps(str(obj.version))))
+    if name == "sun_md5_crypt":
+        out.append(("bare_salt", "49" if obj.bare_salt else "48"))
     return out
 
 
@@ -146,7 +157,7 @@ def gen_hashes(name, rng, n=6, vary_secret=False):
             mx = h.max_salt_size or 24
             kw["salt_size"] = rng.choice([h.min_salt_size, mx, rng.randrange(h.min_salt_size, mx + 1)])
         if getattr(h, "ident_values", None):
-            kw["ident"] = rng.choice(h.ident_values)
+            kw["ident"] = rng.choice(h.wrapped.ident_values if is_wrapper(h) else h.ident_values)
         try:
             out.append(h.using(**kw).hash(secret, **ck))
         except Exception:  # noqa: BLE001
@@ -170,6 +181,8 @@ def variants(h, name, s, rng):
         out.append(x[:3] + "rounds=5000$" + x[3:])
     if name in STATIC:
         out += static_variants(name, s, rng)
+    if name in DES_BCRYPT:
+        out += des_bcrypt_variants(name, s, rng)
     return out
 
 
@@ -232,6 +245,71 @@ def extra_mutants(name, s, rng, n=12):
             out.add(s[:i] + rng.choice(special) + s[i:])
     out |= {s.swapcase(), s + "\n\n", "\n" + s, s[:-1] + "\n" if s else "\n", s.title()}
     return sorted(out)
+
+
+def des_bcrypt_variants(name, s, rng):
+    """well-formed (or accepted) relatives of a DesBcrypt-family hash: padding bits set in the last salt / checksum
+    character of bcrypt strings, v1 and v2 bcrypt_sha256, non-ASCII digits, the trailing newline `$` lets through,
+    bare-salt sun_md5 strings, config forms"""
+    out = []
+    hd = handler(name)
+    bc = "./ABCDEFGHIJKLMNOPQRSTUVWXYZabcdefghijklmnopqrstuvwxyz0123456789"
+    if name in ("bcrypt", "django_bcrypt", "django_bcrypt_sha256", "bcrypt_sha256"):
+        # salt = the 22 characters before the 31 character checksum (and its "$" for bcrypt_sha256)
+        cut = len(s) - 31 - (1 if name == "bcrypt_sha256" else 0)
+        for _ in range(3):
+            out.append(s[:cut - 1] + rng.choice(bc) + s[cut:])         # any last salt character
+            out.append(s[:-1] + rng.choice(bc))                         # any last checksum character
+            out.append(s[:cut - 1] + rng.choice(bc) + s[cut:-1] + rng.choice(bc))
+        out.append(s[:cut])                                              # config string
+        out.append(s[:cut - 1] + rng.choice(bc))
+        for ident in ("$2$", "$2a$", "$2x$", "$2y$", "$2b$"):
+            if name != "bcrypt_sha256" and "$2b$" in s:
+                out.append(s.replace("$2b$", ident, 1))
+    if name == "bcrypt_sha256":
+        for kw in ({"version": 1, "ident": "2a"}, {"version": 1, "ident": "2b"}, {"version": 2}):
+            try:
+                x = hd.using(rounds=rng.choice([4, 5, 10]), **kw).hash("pw")
+            except Exception:  # noqa: BLE001
+                continue
+            out += [x, x.rsplit("$", 1)[0], x + "\n", x.rsplit("$", 1)[0] + "\n"]
+            out.append(x.replace("r=", "r=0", 1).replace(",4$", ",04$").replace(",5$", ",05$"))
+            for a, b in (("v=2", "v=02"), ("v=2", "v=\u0662"), ("v=2", "v=3"), ("v=2", "v=1"), ("v=2", "v=0"), ("t=2b", "t=2a"),
+                         ("r=4", "r=\u0664"), ("r=10", "r=\u0661\u0660"), ("r=10", "r=1\u0660"), (",4$", ",\u0664$"), ("r=5", "r=31"), ("r=5", "r=32"),
+                         ("r=5", "r=3"), ("r=5", "r=005"), (",10$", ",\u0967\u0966$")):
+                if a in x:
+                    out.append(x.replace(a, b, 1))
+    if name == "sun_md5_crypt":
+        if "$$" in s:
+            out.append(s.replace("$$", "$", 1))                          # bare-salt form of the same fields
+            out.append(s.replace("$$", "$", 1).rsplit("$", 1)[0])        # its config form
+        out.append(s.rsplit("$", 2)[0])
+        for r in ("0", "1", "01", "4294963199", "4294963200", "-1", "\u0663"):
+            if s.startswith("$md5$"):
+                out.append("$md5,rounds=" + r + s[4:])
+    if name in ("des_crypt", "bsdi_crypt", "bigcrypt", "crypt16"):
+        out.append(s + "\n")
+        n = {"des_crypt": 2, "bsdi_crypt": 9, "bigcrypt": 2, "crypt16": 2}[name]
+        out += [s[:n], s[:n] + "\n", s[:n + 11], s[:n + 22], s + s[n:n + 11]]
+        for ch in ("\u0130", "\u0131", "\u017f", "\u212a", "\u00df"):
+            i = rng.randrange(len(s))
+            out.append(s[:i] + ch + s[i + 1:])
+    if name == "bsdi_crypt":
+        out += ["_...." + s[5:], "_/..." + s[5:], "_zzzz" + s[5:]]
+    if name == "django_des_crypt":
+        salt, chk = s[len("crypt$"):].split("$")
+        out += ["crypt$$" + chk, "crypt$" + salt + "xyz$" + chk, "crypt$" + salt[:1] + "$" + chk, "crypt$$", "crypt$$" + chk[:2]]
+    if name == "phpass":
+        out += [s[:12], s[:13], s + "abc", s[:4] + s[5:], s[:3], s[:4]]
+    return out
+
+
+def parse_only(name, s):
+    """accepted strings whose to_string() raises in the real code (so only from_string is compared)"""
+    if name == "django_des_crypt":
+        # config string: to_string() does `salt[:2] + None` -> TypeError
+        return [s.rsplit("$", 1)[0]]
+    return []
 
 
 def mutants(s, rng, n=40):
